@@ -51,7 +51,7 @@ def world_description(tier):
 
 def shards(tier, seed):
     out = [{"tier": tier, "part": "pairs", "pk": pk, "i": i} for pk in ("none", "id", "seq") for i in range(NSH)]
-    out += [{"tier": tier, "part": "cross", "i": i} for i in range(8)]
+    out += [{"tier": tier, "part": "cross", "i": i} for i in range(16)]
     out += [{"tier": tier, "part": "unary", "i": i} for i in range(NSH)]
     out += [{"tier": tier, "part": "empty", "i": 0}]
     return out
@@ -65,6 +65,9 @@ def parents(N):
         "seq": lib.seq_parent(g, pid="A"),
         "idB": Parent(id="B", sequence_type="chromosome"),
         "seq2": lib.seq_parent(g[::-1], pid="A"),
+        # parents WITHOUT an id (parent_id is None on both sides of a none-vs-parent comparison)
+        "noid_type": Parent(sequence_type="chromosome"),
+        "noid_seq": Parent(sequence=lib.Sequence(g, lib.Alphabet.NT_EXTENDED_GAPPED)),
     }
 
 
@@ -474,10 +477,10 @@ def run_shard(shard):
         N = w["Nx"]
         lays = list(worlds.layouts(N, 2, "disjoint"))
         locs = [(b, s) for b in lays for s in "+-"]
-        kinds = ["none", "id", "seq", "idB", "seq2"]
+        kinds = ["none", "id", "seq", "idB", "seq2", "noid_type", "noid_seq"]
         combos = [(a, b) for a in kinds for b in kinds if a != b]
         for ci, (k1, k2) in enumerate(combos):
-            if ci % 8 != shard["i"]:
+            if ci % 16 != shard["i"]:
                 continue
             for (b1, s1) in locs:
                 for (b2, s2) in locs:
